@@ -62,6 +62,8 @@ var c17Tables = []c17Table{
 	{"named numeric chain", map[string][]c17Fn{"-": {fOpSubMI}, "+": {fOpAddMS, fOpAdd}}},
 	{"not in", map[string][]c17Fn{"not in": {fOpNotIn}, "in": {fOpIn}}},
 	{"not in alone", map[string][]c17Fn{"not in": {fOpNotIn}}},
+	{"method then function-typed field", map[string][]c17Fn{"+": {fOpCat, fFnAdd}}},
+	{"function-typed field then methods", map[string][]c17Fn{"+": {fFnAdd, fOpCat, fOpAddF}}},
 }
 
 func (t c17Table) options() []expr.Option {
@@ -211,6 +213,22 @@ func c17Oracle(e *gen.Expr, t c17Table, only string) (out []mismatch, runs int64
 			}()
 			if errR != nil || progKey(pR) != progKey(pO) {
 				add("operators-before-env-differ", henv.Val{}, fmt.Sprint(errR))
+			}
+		}
+		if m.Env == "struct" && m.Opt && errO == nil {
+			// the same operator form with other blanks between its tokens means the same
+			for _, ws := range []string{"  ", "\n", "\t "} {
+				if alt, ok := c11Relayout(src, ws); ok && alt != src {
+					pW, errW := lib.Compile(alt, m, t.options()...)
+					if errW != nil {
+						add("operator-form-rejected-with-other-blanks", henv.Val{}, fmt.Sprintf("%q: %v", alt, errW))
+						break
+					}
+					if fmt.Sprintf("%x", pW.Bytecode) != fmt.Sprintf("%x", pO.Bytecode) {
+						add("operator-form-differs-with-other-blanks", henv.Val{}, fmt.Sprintf("%q compiles to other bytecode than %q", alt, src))
+						break
+					}
+				}
 			}
 		}
 		if errC != nil {
